@@ -53,6 +53,8 @@ ALIASES = {
     "cf": ["cf", "val", "b"],
     "cs": ["cs", "name", "c"],
     "cl": ["cl", "lst"],
+    "track_id": ["track_id", "tid", "TrackID"],
+    "lineage_id": ["lineage_id", "lin", "LineageID"],
     "z": ["z", "pz", "depth", "Z"],
     "y": ["y", "py", "row", "Y"],
     "x": ["x", "px", "col", "X"],
@@ -102,7 +104,7 @@ def sources(draw, geff=False):
             m["pos"][i] = int(m["pos"][i])
     renamed = draw(st.booleans())
     axes = ["z", "y", "x"][-nsp:]
-    keys = ["time", "id", "parent_id", "uid", "ci", "cf", "cs", "cl", *axes]
+    keys = ["time", "id", "parent_id", "uid", "ci", "cf", "cs", "cl", "track_id", "lineage_id", *axes]
     if not renamed:
         cols = {k: k for k in keys}
     else:
@@ -129,10 +131,30 @@ def sources(draw, geff=False):
             "sparse": draw(st.booleans()), "pair": draw(st.booleans()),
             "mutation": draw(st.sampled_from([None, None, None, "duplicate_id", "unknown_parent", "self_link",
                                               "missing_column", "unmapped_key", "mapped_to_missing"])),
-            "mpick": draw(st.integers(0, 100))}
+            "mpick": draw(st.integers(0, 100)),
+            # valid track / lineage ids already in the source (arbitrary distinct values), mapped
+            "idcols": draw(st.sampled_from([None, None, None, "both", "track", "lineage"])) if not geff else None,
+            "id_base": draw(st.sampled_from([0, 1, 5, 300])), "id_perm": draw(st.integers(0, 10**6))}
 
 
 # ----------------------------------------------------------------------------------------
+def _source_track_ids(inp):
+    """Valid ids for the source model: one arbitrary distinct value per reference tracklet /
+    lineage (uid -> id), in no particular order."""
+    import random
+
+    uids = [m["uid"] for m in inp["nodes"]]
+    edges = [(m["parent"], m["uid"]) for m in inp["nodes"] if m["parent"] is not None]
+    rnd = random.Random(int(inp.get("id_perm", 0)))
+    out = []
+    for classes, step in ((refs.tracklets(uids, edges), 2), (refs.lineages(uids, edges), 3)):
+        classes = sorted(classes, key=min)
+        ranks = list(range(len(classes)))
+        rnd.shuffle(ranks)
+        out.append({u: int(inp.get("id_base", 1)) + step * r for r, c in zip(ranks, classes) for u in c})
+    return out
+
+
 def _frame(inp):
     import pandas as pd
 
@@ -141,6 +163,7 @@ def _frame(inp):
     by_uid = {m["uid"]: m for m in inp["nodes"]}
     strids = inp["idkind"] == "str"
     rows = []
+    src_ids = _source_track_ids(inp)
     for m in inp["nodes"]:
         if m["parent"] is None:
             par = {"minus1": -1, "nan": float("nan"), "empty": None}[inp["root"]]
@@ -155,6 +178,10 @@ def _frame(inp):
         row[cols["cf"]] = m["cf"]
         row[cols["cs"]] = m["cs"]
         row[cols["cl"]] = str([m["ci"], m["uid"]])
+        if inp.get("idcols") in ("both", "track"):
+            row[cols["track_id"]] = src_ids[0][m["uid"]]
+        if inp.get("idcols") in ("both", "lineage"):
+            row[cols["lineage_id"]] = src_ids[1][m["uid"]]
         rows.append(row)
     k = inp["shuffle"] % len(rows)
     rows = rows[k:] + rows[:k]
@@ -176,6 +203,10 @@ def _frame(inp):
           "pos": [cols[axes[i]] for i in inp["pos_order"]], "uid": cols["uid"]}
     for k2 in inp["customs"]:
         nm[k2] = cols[k2]
+    if inp.get("idcols") in ("both", "track"):
+        nm["track_id"] = cols["track_id"]
+    if inp.get("idcols") in ("both", "lineage"):
+        nm["lineage_id"] = cols["lineage_id"]
     if inp.get("legacy_pos"):
         # legacy form of the mapping: one key per axis instead of the composite "pos"
         nm.pop("pos")
@@ -326,6 +357,7 @@ def probe_df(inp) -> ProbeResult:
     order = list(range(inp["nsp"])) if inp.get("legacy_pos") else inp["pos_order"]
     if inp.get("legacy_pos"):
         res.tags.append("c12:legacy_axis_keys")
+    src_tl = _source_track_ids(inp)
     feat_col = inp["cols"]["cf"] if (inp.get("features_arg") and "cf" not in inp["customs"] and not inp.get("via_file")) else None
     for u, m in by_uid.items():
         d = g.nodes[imp_by_uid[u]]
@@ -336,6 +368,12 @@ def probe_df(inp) -> ProbeResult:
         exp_pos = [m["pos"][i] for i in order]
         if not refs.close(list(d.get("pos", [])), exp_pos, rtol=0, atol=0):
             res.fail("position", f"node {m['id']}: pos {d.get('pos')} != {exp_pos} (mapped order {order})")
+        for which, pos_ in (("track", 0), ("lineage", 1)):
+            if inp.get("idcols") in ("both", which):
+                key = tracks.features.tracklet_key if which == "track" else tracks.features.lineage_key
+                if key is None or _as_int(d.get(key)) != src_tl[pos_][u]:
+                    res.fail(f"source_{which}_ids", f"node {m['id']}: valid source {which} id {src_tl[pos_][u]} "
+                             f"imported as {d.get(key) if key else None!r} (key {key!r})")
         for k in inp["customs"]:
             exp = [m["ci"], m["uid"]] if k == "cl" else m[k]
             got = d.get(k)
